@@ -111,12 +111,12 @@ TEXT = {
              "monitorUnreachable with several sockets and pending dials (deterministic marker protocol, no timing).",
         note=BASE_NOTE + "'Fails fast' (notice beats the 15 s QUIC handshake time-out) is a real-time statement: measured, not proved."),
     "C18": dict(
-        text="Theorems ads_newer_wins, entry_time_monotone (both variants); for the tombstone variant ads_no_resurrection and "
-             "ads_converge_same_messages (order independence) by an inductive invariant over arbitrary histories; for the variant the "
-             "source implements ads_in_order_partial plus witness theorems of the two recorded findings (resurrection after a withdrawal, "
-             "withdrawal relayed again and again). Tie: regenerated facts (keep test, tombstones?, relay) + differential runs of "
-             "handleServiceAdvertisement on shuffled/duplicated histories with logical times; the recorded findings are replayed on the "
-             "implementation on every run (KNOWN-FINDING).",
+        text="Theorems ads_newer_wins, entry_time_monotone; ads_no_resurrection and ads_converge_same_messages (order independence "
+             "per node) by an inductive invariant over arbitrary histories, for the variant that remembers withdrawals — which the "
+             "source implements since the repair of the two defects this check found (resurrection after a withdrawal, a withdrawal "
+             "relayed again and again; their witness theorems remain as theorems about the variant without tombstones). Tie: "
+             "regenerated facts (withdrawal test, keep test, record/forget, relay) + differential runs of handleServiceAdvertisement "
+             "on shuffled/duplicated histories with logical times, the former failing histories first (corpus).",
         note=BASE_NOTE + "Network-level convergence is stated per node (same messages ⇒ same entry); periodic re-advertisement not modelled."),
     "C20": dict(
         text="Theorem receptorNames_makeSAN: for all DNS/IP/node-ID lists (valid UTF-8, any length, duplicates) the names read back "
